@@ -95,6 +95,38 @@ def is_sym(v):
     return isinstance(v, Sym)
 
 
+def _nf(v):
+    """finite Python floats / numpy scalars met in mixed arithmetic are exact rationals (floats are reals)"""
+    if isinstance(v, float):
+        return norm(v)
+    if isinstance(v, (bool, int, Fraction, Sym)):
+        return v
+    try:
+        return norm(v)
+    except Unsupported:
+        return v
+
+
+def _tensor_op(opname, sym, tensor, reflected):
+    """Sym <op> torch.Tensor: lift the scalar to a 0-dim SymTensor and let torch dispatch (the symbolic mode handles it)"""
+    import operator
+
+    import torch
+
+    from .tensor import SymTensor, as_oarr
+
+    dt = {"real": torch.float32, "int": torch.int64, "bool": torch.bool}[sym.sort]
+    if dt != torch.bool and tensor.dtype.is_floating_point:
+        dt = tensor.dtype
+    t0 = SymTensor(as_oarr(sym), None, dt)
+    f = getattr(operator, opname)
+    return f(tensor, t0) if reflected else f(t0, tensor)
+
+
+def _is_tensor(o):
+    return type(o).__module__.startswith("torch") or type(o).__name__ == "SymTensor"
+
+
 def _zconst(v, real):
     if isinstance(v, bool):
         v = int(v)
@@ -249,40 +281,40 @@ class Sym:
 
     # ------------------------------------------------------------------ arithmetic
     def __add__(self, o):
-        return add(self, o)
+        return _tensor_op("add", self, o, False) if _is_tensor(o) else add(self, o)
 
     def __radd__(self, o):
-        return add(o, self)
+        return _tensor_op("add", self, o, True) if _is_tensor(o) else add(o, self)
 
     def __sub__(self, o):
-        return sub(self, o)
+        return _tensor_op("sub", self, o, False) if _is_tensor(o) else sub(self, o)
 
     def __rsub__(self, o):
-        return sub(o, self)
+        return _tensor_op("sub", self, o, True) if _is_tensor(o) else sub(o, self)
 
     def __mul__(self, o):
-        return mul(self, o)
+        return _tensor_op("mul", self, o, False) if _is_tensor(o) else mul(self, o)
 
     def __rmul__(self, o):
-        return mul(o, self)
+        return _tensor_op("mul", self, o, True) if _is_tensor(o) else mul(o, self)
 
     def __truediv__(self, o):
-        return div(self, o)
+        return _tensor_op("truediv", self, o, False) if _is_tensor(o) else div(self, o)
 
     def __rtruediv__(self, o):
-        return div(o, self)
+        return _tensor_op("truediv", self, o, True) if _is_tensor(o) else div(o, self)
 
     def __floordiv__(self, o):
-        return floordiv(self, o)
+        return _tensor_op("floordiv", self, o, False) if _is_tensor(o) else floordiv(self, o)
 
     def __rfloordiv__(self, o):
-        return floordiv(o, self)
+        return _tensor_op("floordiv", self, o, True) if _is_tensor(o) else floordiv(o, self)
 
     def __mod__(self, o):
-        return mod(self, o)
+        return _tensor_op("mod", self, o, False) if _is_tensor(o) else mod(self, o)
 
     def __rmod__(self, o):
-        return mod(o, self)
+        return _tensor_op("mod", self, o, True) if _is_tensor(o) else mod(o, self)
 
     def __pow__(self, o):
         return spow(self, o)
@@ -297,22 +329,22 @@ class Sym:
         return sabs(self)
 
     def __eq__(self, o):
-        return eq(self, o)
+        return _tensor_op("eq", self, o, False) if _is_tensor(o) else eq(self, o)
 
     def __ne__(self, o):
-        return lnot(eq(self, o))
+        return _tensor_op("ne", self, o, False) if _is_tensor(o) else lnot(eq(self, o))
 
     def __lt__(self, o):
-        return lt(self, o)
+        return _tensor_op("lt", self, o, False) if _is_tensor(o) else lt(self, o)
 
     def __le__(self, o):
-        return le(self, o)
+        return _tensor_op("le", self, o, False) if _is_tensor(o) else le(self, o)
 
     def __gt__(self, o):
-        return lt(o, self)
+        return _tensor_op("gt", self, o, False) if _is_tensor(o) else lt(o, self)
 
     def __ge__(self, o):
-        return le(o, self)
+        return _tensor_op("ge", self, o, False) if _is_tensor(o) else le(o, self)
 
     def __and__(self, o):
         return land(self, o)
@@ -457,6 +489,7 @@ def _isnonfinite(v):
 # ----------------------------------------------------------------------------------------------
 # arithmetic
 def add(a, b):
+    a, b = _nf(a), _nf(b)
     if not isinstance(a, Sym) and not isinstance(b, Sym):
         if isinstance(a, float) or isinstance(b, float):
             return float(a) + float(b)
@@ -477,6 +510,7 @@ def add(a, b):
 
 
 def sub(a, b):
+    a, b = _nf(a), _nf(b)
     if not isinstance(a, Sym) and not isinstance(b, Sym):
         if isinstance(a, float) or isinstance(b, float):
             return float(a) - float(b)
@@ -495,6 +529,7 @@ def sub(a, b):
 
 
 def mul(a, b):
+    a, b = _nf(a), _nf(b)
     if not isinstance(a, Sym) and not isinstance(b, Sym):
         if isinstance(a, float) or isinstance(b, float):
             return float(a) * float(b)
@@ -527,6 +562,7 @@ def mul(a, b):
 
 
 def div(a, b):
+    a, b = _nf(a), _nf(b)
     if not isinstance(a, Sym) and not isinstance(b, Sym):
         if isinstance(a, float) or isinstance(b, float):
             return float(a) / float(b) if b != 0 else math.copysign(math.inf, float(a)) if a != 0 else math.nan
@@ -551,6 +587,7 @@ def div(a, b):
 
 
 def floordiv(a, b):
+    a, b = _nf(a), _nf(b)
     if not isinstance(a, Sym) and not isinstance(b, Sym):
         return norm(a // b)
     if isinstance(b, Sym):
@@ -564,6 +601,7 @@ def floordiv(a, b):
 
 
 def mod(a, b):
+    a, b = _nf(a), _nf(b)
     """Python/torch.remainder semantics (sign of the divisor); only positive concrete divisors."""
     if not isinstance(a, Sym) and not isinstance(b, Sym):
         if isinstance(a, float) or isinstance(b, float):
@@ -590,6 +628,7 @@ def mod(a, b):
 
 
 def spow(a, p):
+    a, p = _nf(a), _nf(p)
     if not isinstance(a, Sym) and not isinstance(p, Sym):
         if isinstance(a, float) or isinstance(p, float):
             return float(a) ** float(p)
@@ -712,6 +751,7 @@ def _cmp_lin1(d, pred):
 
 
 def eq(a, b):
+    a, b = _nf(a), _nf(b)
     if not isinstance(a, Sym) and not isinstance(b, Sym):
         return a == b
     if isinstance(a, float) or isinstance(b, float):
@@ -761,6 +801,7 @@ def ne(a, b):
 
 
 def lt(a, b):
+    a, b = _nf(a), _nf(b)
     if not isinstance(a, Sym) and not isinstance(b, Sym):
         return a < b
     if isinstance(a, float):
@@ -791,6 +832,7 @@ def lt(a, b):
 
 
 def le(a, b):
+    a, b = _nf(a), _nf(b)
     if not isinstance(a, Sym) and not isinstance(b, Sym):
         return a <= b
     if isinstance(a, float):
@@ -839,6 +881,7 @@ def lnot(a):
 
 
 def land(a, b):
+    a, b = _nf(a), _nf(b)
     sa = isinstance(a, Sym)
     sb = isinstance(b, Sym)
     if not sa and not sb:
@@ -859,6 +902,7 @@ def land(a, b):
 
 
 def lor(a, b):
+    a, b = _nf(a), _nf(b)
     sa = isinstance(a, Sym)
     sb = isinstance(b, Sym)
     if not sa and not sb:
@@ -878,6 +922,7 @@ def lor(a, b):
 
 
 def lxor(a, b):
+    a, b = _nf(a), _nf(b)
     sa = isinstance(a, Sym)
     sb = isinstance(b, Sym)
     if not sa and not sb:
@@ -900,6 +945,7 @@ def lxor(a, b):
 
 
 def ite(c, a, b):
+    a, b = _nf(a), _nf(b)
     if not isinstance(c, Sym):
         return a if c else b
     if not isinstance(a, Sym) and not isinstance(b, Sym):
@@ -923,11 +969,13 @@ def ite(c, a, b):
 
 
 def smin(a, b):
+    a, b = _nf(a), _nf(b)
     c = lt(b, a)
     return ite(c, b, a)
 
 
 def smax(a, b):
+    a, b = _nf(a), _nf(b)
     c = lt(a, b)
     return ite(c, b, a)
 
